@@ -203,9 +203,37 @@ def r3_flag_layout(cx):
         raise AnchorError("read_addr_list_inner not found")
     dec = dec[0]
     cx.touch(dec)
-    masks = sorted(op_const(s["rv"]["b"]) for bi, si, s in dec.stmts() if s["k"] == "assign" and s["rv"]["k"] == "binop" and s["rv"]["op"] == "BitAnd")
-    divs = sorted(op_const(s["rv"]["b"]) for bi, si, s in dec.stmts() if s["k"] == "assign" and s["rv"]["k"] == "binop" and s["rv"]["op"] == "Div")
-    cx.check("decoder-masks", masks == [0x07, 0x38] and divs == [8], site_of(dec), "decoder: v4 count = flags & 0x07, v6 count = (flags & 0x38) / 8 (masks %s, divisors %s)" % (masks, divs))
+    # the two loop bounds as functions of the flags byte, compared with the wire layout for all 256 values
+    # (v4 count = bits 0-2, v6 count = bits 3-5); any equivalent spelling is accepted
+    from ..arith import term_of, evaluate, show, leaves
+    from ..lengths import static_len as _sl
+    from ..mirutil import iter_source
+    flag_params = [l for l in range(1, dec.arg_count + 1) if dec.local_ty(l).k == "int" and dec.local_ty(l).d.get("bits") == 8]
+    okm = False
+    detail = "flags parameter not found"
+    if len(flag_params) == 1:
+        spec = {16: lambda f: (f >> 3) & 7, 4: lambda f: f & 7}
+        found = {}
+        for li in loops_of(dec):
+            sizes = [_sl(dec, dec.blocks[bi]["term"]["args"][1]) for bi in li.blocks if dec.blocks[bi]["term"]["k"] == "call" and callee_is(dec.blocks[bi]["term"], "io::Read::read_exact")]
+            sizes = [x for x in sizes if x in (4, 16)]
+            if len(set(sizes)) != 1:
+                continue
+            src = iter_source(dec, li)
+            if src is None or src.get("p"):
+                continue
+            d = defuse(dec).single_def(src["l"])
+            if not (d and d[0] == "stmt" and d[3]["rv"]["k"] == "aggregate" and d[3]["rv"].get("adt", "").endswith("ops::Range")):
+                continue
+            lo, hi = d[3]["rv"]["ops"]
+            t_hi = term_of(dec, hi, variables={flag_params[0]: "flags"})
+            if op_const(lo) != 0 or [x for x in leaves(t_hi) if x[0] not in ("c", "var")]:
+                continue
+            ok_all = all(evaluate(t_hi, {"flags": f}) == spec[sizes[0]](f) for f in range(256))
+            found[sizes[0]] = (ok_all, show(t_hi))
+        okm = set(found) == {4, 16} and all(v[0] for v in found.values())
+        detail = ", ".join("%d-byte loop runs %s times" % (k, v[1]) for k, v in sorted(found.items()))
+    cx.check("decoder-masks", okm, site_of(dec), "decoder: v4 count = flags & 0x07, v6 count = (flags >> 3) & 0x07 for every flags byte (%s)" % detail, how="arith")
     # family order in the decoder: the v6 loop precedes the v4 loop (by the size of the address read)
     from ..lengths import static_len
     order = []
@@ -250,7 +278,9 @@ def r3_flag_layout(cx):
             cx.check("v4-count-fits-3-bits:" + enc.name, False, site_of(enc), "addition of the v4 count not found")
         if has_id:
             addc = [x for x in adds if op_const(x[1]["rv"]["b"]) is not None]
-            cx.check("encoder-id-flag", len(addc) == 1 and op_const(addc[0][1]["rv"]["b"]) == 0x80, site_of(enc), "encoder sets the id flag by adding 0x80")
+            orc = [(bi, s) for bi, si, s in enc.stmts() if s["k"] == "assign" and s["rv"]["k"] == "binop" and s["rv"]["op"] == "BitOr" and op_const(s["rv"]["b"]) is not None]
+            idc = addc + orc
+            cx.check("encoder-id-flag", len(idc) == 1 and op_const(idc[0][1]["rv"]["b"]) == 0x80, site_of(enc), "encoder sets the id flag by adding / or-ing 0x80 (the counts stay within 0x3f)")
         # family order: the loop writing 16-byte octets precedes the loop writing 4-byte octets
         w16 = _innermost([li for li in loops_of(enc) if _writes_octets(enc, li, "Ipv6Addr")])
         w4 = _innermost([li for li in loops_of(enc) if _writes_octets(enc, li, "Ipv4Addr")])
